@@ -1944,6 +1944,9 @@ pub (crate) fn bid128_ext_fma(
                             R64 = 10;
                         }
                     }
+                    // the result can be tiny only if z itself is 10^33 * 10^emin; when z = 10^33 * 10^(emin+1) is
+                    // decremented below to (10^34 - 1) * 10^emin the result is normal
+                    let z_at_emin: bool = e3 == EXP_MIN_UNBIASED;
                     if R64 == 5
                     && !is_inexact_lt_midpoint && !is_inexact_gt_midpoint
                     && !is_midpoint_lt_even    && !is_midpoint_gt_even {
@@ -1975,7 +1978,7 @@ pub (crate) fn bid128_ext_fma(
                         e3       -= 1;
                         res.w[1] |= z_sign | (((e3 + 6176) as BID_UINT64) << 49);
                     }
-                    if e3 == EXP_MIN_UNBIASED {
+                    if z_at_emin {
                         #[cfg(feature = "decimal_tiny_detection_after_rounding")]
                         if R64 < 5 || (R64 == 5 && !is_inexact_lt_midpoint) {
                             // result not tiny (in round-to-nearest mode)
